@@ -33,6 +33,8 @@ var c01Families = []family{
 	{`query($v1: Boolean!) { me { id marks stamps @include(if: $v1) } odds users { stamps } }`, []string{"v1"}},
 	// @skip and @include on the same node (field, inline fragment, fragment spread), in both orders
 	{`query($v1: Boolean!, $v2: Boolean!) { me { id name @skip(if: $v1) @include(if: $v2) best @include(if: $v2) @skip(if: $v1) { id } ... @skip(if: $v1) @include(if: $v2) { age } ...B @include(if: $v2) @skip(if: $v1) } } fragment B on User { boss { id } }`, []string{"v1", "v2"}},
+	// an executable directive (declared in another schema file) on plain and resolver-backed fields
+	{`query($v1: Boolean!) { me { id name @mark(k: 1) best @mark(k: 2) { id age @mark(k: 3) } boss @include(if: $v1) @mark(k: 4) { id } } users { name @mark(k: 1) } }`, []string{"v1"}},
 	// an object with exactly one resolver-backed field, non-null, selected under several aliases
 	{`query($v1: Boolean!) { box { id a: inner { id } b: inner { id name } c: inner @include(if: $v1) { age } } me { id } }`, []string{"v1"}},
 }
